@@ -186,7 +186,7 @@ def do_replay_json():
         in_repo = False
         tb = e.__traceback__
         while tb is not None:
-            if tb.tb_frame.f_code.co_filename.startswith("/repo/"):
+            if tb.tb_frame.f_code.co_filename.startswith(str(rt.REPO) + "/"):
                 in_repo = True
             tb = tb.tb_next
         res["reproduced"] = True if in_repo else None
